@@ -312,7 +312,7 @@ def gen_lifecycle(p, rng, limit):
         if lg == 2:
             ls.append("@0 attach 1")
         d = rng.randrange(N)
-        ls += ["@0 update | 5.0.0:T%d" % d, "@0 react 2", "@0 query 1", "@0 copy 0".replace("@0", "@1"),
+        ls += ["@0 update | 5.0.0:T%d" % d, "@0 react 2", "@0 query 1", ("@1 move 0" if idx % 2 else "@1 copy 0"),
                "@0 ito %d" % rng.randrange(N), "@1 ito %d" % rng.randrange(N), "@0 attach %d" % (idx % 2), "@0 update", "@1 update", "@0 obs", "@1 obs"]
         if feat_has(p, "S"):
             ls += ["@0 save", "@1 save"]
